@@ -77,14 +77,16 @@ def schedules(situations, full):
                     if where == "idle":
                         kw.pop("seg", None)
                     if writing:
-                        # the Keep Alive of 16 is accepted k bytes at a time: still unfinished when discovery completes at 17
-                        sc["lat"] = [16, 4, 2]
+                        # the Keep Alive of 16 is accepted k bytes at a time: still unfinished when a routing step completes at 17 --
+                        # discovery, filtering, or selection (after which the next packet is queued directly, without a read in between)
                         if "plugin" in sc:
                             sc["plugin"]["at"] = 15
-                        for k in ([1, 3] if not full else [1, 2, 3, 5, 9]):
-                            add("outer/%s/p%d/%s/writing" % (frame, pf, where), dict(sc), wstall={"at": 15, "k": k, "release": 19}, **kw)
+                        for lat in ([16, 4, 2], [4, 12, 2], [4, 4, 8]):
+                            for k in ([1, 3] if not full else [1, 2, 3, 5, 9]):
+                                add("outer/%s/p%d/%s/writing" % (frame, pf, where), dict(sc, lat=lat), wstall={"at": 15, "k": k, "release": 19}, **kw)
                     else:
                         add("outer/%s/p%d/%s" % (frame, pf, where), sc, **kw)
+    out.extend(write_stall_schedules(full))
     # no cancellation at all, but every clientbound write accepted in two portions
     for k in (1, 2, 7):
         add("split-writes", dict(base, ackAt=1, infoAt=3, lat=[20, 4, 2], locale="en_US"), wsplit=k)
@@ -97,6 +99,27 @@ def schedules(situations, full):
             seen.add(key)
             uniq.append(r)
     return uniq
+
+
+def write_stall_schedules(full):
+    """The Keep Alive of second 16 is accepted k bytes and then the transport stalls; a routing step (discovery / filtering / selection, or
+    all three) completes at 17..19 while it is half written; the transport reopens at 19 or only at 30 (after everything else was queued).
+    With a client that echoes promptly and with one that never does (the half-written Keep Alive is outstanding all the same)."""
+    out = []
+    for lat in ([16, 4, 2], [4, 12, 2], [4, 4, 8], [16, 1, 1]):
+        for k in ([1, 4] if not full else [1, 2, 4, 5, 9]):
+            for release in (19, 30):
+                for policy in ("prompt", "never"):
+                    out.append({"tag": "stall/lat=%s/k=%d/release=%d/%s" % ("-".join(map(str, lat)), k, release, policy),
+                                "sched": {"auth": 0, "policy": policy, "ackAt": 1, "infoAt": 1, "lat": lat, "locale": "en_US"},
+                                "wstall": {"at": 15, "k": k, "release": release}})
+    # routing outlasts the next deadline: the half-written Keep Alive is outstanding, a client that never echoes it is timed out at 32 s
+    for lat in ([16, 40, 2], [4, 12, 40]):
+        for k in (1, 4):
+            out.append({"tag": "stall/lat=%s/k=%d/release=19/never-outlasting" % ("-".join(map(str, lat)), k),
+                        "sched": {"auth": 0, "policy": "never", "ackAt": 1, "infoAt": 1, "lat": lat, "locale": "en_US"},
+                        "wstall": {"at": 15, "k": k, "release": 19}})
+    return out
 
 
 def pipeline_schedules(full):
